@@ -18,6 +18,12 @@ import "golang.org/x/tools/go/ssa"
 
 func isHandledBuiltinCall(instruction ssa.CallInstruction) bool {
 	if instruction.Common().Value != nil {
+		if _, isBuiltin := instruction.Common().Value.(*ssa.Builtin); !isBuiltin {
+			// Only actual builtins are handled by name: a user-defined function, method or variable may share the
+			// name of a builtin. The only other handled call is Error() of the builtin error interface.
+			return instruction.Common().IsInvoke() && instruction.Common().Method.Name() == "Error" &&
+				len(instruction.Common().Args) == 0
+		}
 		switch instruction.Common().Value.Name() {
 		// for append, copy we simply propagate the taint like in a binary operator
 		case "ssa:wrapnilchk":
@@ -62,6 +68,11 @@ func doBuiltinCall(t *IntraAnalysisState, callValue ssa.Value, callCommon *ssa.C
 		return false
 	}
 	if callCommon.Value != nil {
+		if _, isBuiltin := callCommon.Value.(*ssa.Builtin); !isBuiltin {
+			// The call is handled and the value is not a builtin: this is the call to Error()
+			simpleTransfer(t, instruction, callCommon.Value, callValue)
+			return true
+		}
 		switch callCommon.Value.Name() {
 		// for append, copy we simply propagate the taint like in a binary operator
 		case "ssa:wrapnilchk":
